@@ -31,9 +31,15 @@ class PoolMonitor(object):
     def invariant(self, st, me):
         nb, nba = st.read(Val.ref(me), NB), st.read(Val.ref(me), NBA)
         mx = st.read(Val.ref(me), "_max_threads")
-        return z3.And(V.is_int(nb), V.is_int(nba), Val.i(nb) >= 0, Val.i(nba) >= 0, V.is_int(mx),
-                      Val.i(nb) <= Val.i(mx), V.is_list(st.read(Val.ref(me), THREADS)),
-                      Val.llen(st.read(Val.ref(me), THREADS)) >= 0)
+        inv = [V.is_int(nb), V.is_int(nba), Val.i(nb) >= 0, Val.i(nba) >= 0, V.is_int(mx),
+               Val.i(nb) <= Val.i(mx), V.is_list(st.read(Val.ref(me), THREADS)),
+               Val.llen(st.read(Val.ref(me), THREADS)) >= 0]
+        if self.worker:
+            # thread-modular accounting (__nb_threads == number of counted workers): a worker that is still counted
+            # contributes one to the count
+            inv.append(z3.Implies(self.trusted.ghost(st, "w_counted"), Val.i(nb) >= 1))
+            inv.append(z3.Implies(self.trusted.ghost(st, "w_active"), Val.i(nba) >= 1))
+        return z3.And(*inv)
 
     def is_lock(self, ex, st, cm):
         me = self.self_obj(st)
@@ -42,6 +48,7 @@ class PoolMonitor(object):
         return not ex.feasible(st, cm != st.read(Val.ref(me), LOCK))
 
     def acquire(self, ex, st, cm):
+        self.trusted = ex.env.trusted
         me = self.self_obj(st)
         st.locks.append("pool")
         if len(st.locks) == 1:
@@ -51,6 +58,7 @@ class PoolMonitor(object):
             st.assume(self.invariant(st, me))
 
     def release(self, ex, st, cm, ctl):
+        self.trusted = ex.env.trusted
         me = self.self_obj(st)
         if self.worker and ctl[0] == RETURN:
             goal = z3.Not(ex.env.trusted.ghost(st, "w_counted"))
@@ -72,6 +80,19 @@ class PoolMonitor(object):
         if not st.locks and attr not in self.exempt:
             st.obligations.append(Obligation("%s/lock-discipline[%s]" % (ex.env.fn.key, attr), st.hyps(), z3.BoolVal(False),
                                              st.sig, "lock-discipline", attr, ex.env.contract.props))
+        if attr == NBA and self.worker:
+            arr = st.heap[NBA]
+            if z3.is_app(arr) and arr.decl().kind() == z3.Z3_OP_STORE:
+                prev = z3.Select(arr.arg(0), Val.ref(me))
+                new = arr.arg(2)
+                d = Val.i(new) - Val.i(prev)
+                if not ex.feasible(st, d != 1):
+                    st.ghost["w_active"] = z3.BoolVal(True)
+                elif not ex.feasible(st, d != -1):
+                    st.obligations.append(Obligation("%s/monitor[deactivate_only_when_active]" % ex.env.fn.key, st.hyps(),
+                                                     ex.env.trusted.ghost(st, "w_active"), st.sig, "monitor",
+                                                     "deactivate_only_when_active", ex.env.contract.props))
+                    st.ghost["w_active"] = z3.BoolVal(False)
         if attr == NB and self.worker:
             arr = st.heap[NB]
             # the write just performed is Store(prev, ref, new): compare with the previous value
